@@ -157,6 +157,8 @@ Scope(lits, G0, visible) ==
     IN [G  |-> G,
         \* aggregates waiting for each other: injected variables that only another waiting aggregate could ground
         cyc |-> \E i \in idx : (~(inj[i] \subseteq G) /\ inj[i] \subseteq Gsrc) \/ inner[i].cyc,
+        \* two aggregates of the scope mention each other's result variable (whether or not that blocks grounding)
+        mut |-> \E i, j \in idx : i # j /\ TVars(lits[i].res) \cap own[j] # {} /\ TVars(lits[j].res) \cap own[i] # {},
         ok |-> /\ ScopeVars(lits) \subseteq G
                /\ \A i \in 1..Len(lits) :
                     LET l == lits[i] IN
@@ -178,7 +180,7 @@ GroundInfo(c) ==
     IN [ok  |-> /\ sc.ok
                 /\ HeadVars(c) \subseteq sc.G
                 /\ \A j \in 1..Len(c.head.args) : RecsOK(c.head.args[j], sc.G, FALSE),
-        cyc |-> sc.cyc]
+        cyc |-> sc.cyc, mut |-> sc.mut]
 Grounded(c) == GroundInfo(c).ok
 
 \* ===========================================================================
@@ -306,6 +308,6 @@ AllTyped(P)    == \A i \in 1..Len(P.clauses) : WellTyped(P, P.clauses[i])
 \* aggcycle: some clause is ungrounded because two aggregates feed each other (souffle: "Mutually dependent aggregate")
 Why(P) == LET gi == [i \in 1..Len(P.clauses) |-> GroundInfo(P.clauses[i])] IN
           [stratifiable |-> Stratifiable(P), grounded |-> \A i \in 1..Len(P.clauses) : gi[i].ok, typed |-> AllTyped(P),
-           aggcycle |-> \E i \in 1..Len(P.clauses) : gi[i].cyc]
+           aggcycle |-> \E i \in 1..Len(P.clauses) : gi[i].cyc, aggmutual |-> \E i \in 1..Len(P.clauses) : gi[i].mut]
 Verdict(P) == LET w == Why(P) IN IF w.stratifiable /\ w.grounded /\ w.typed THEN "accept" ELSE "reject"
 =============================================================================
